@@ -64,6 +64,9 @@ Denote(t) ==
             IF t.p.axis = 0 THEN MVStackSeq([i \in 1..Len(t.a) |-> Denote(t.a[i])])
             ELSE MHStackSeq([i \in 1..Len(t.a) |-> Denote(t.a[i])])
       [] t.k \in {"NoDispatch", "Annot", "op_lazify", "op_densify"} -> Denote(t.a[1])
+      [] t.k = "GramT" -> MMul(MTr(Denote(t.a[1])), Denote(t.a[1]))     \* Product(Transpose(x), x)
+      [] t.k = "GramH" -> MMul(MAdj(Denote(t.a[1])), Denote(t.a[1]))    \* Product(Adjoint(x), x)
+      [] t.k = "GramHr" -> MMul(Denote(t.a[1]), MAdj(Denote(t.a[1])))   \* Product(x, Adjoint(x))
       [] t.k = "op_sub" -> MSub(Denote(t.a[1]), Denote(t.a[2]))
       [] t.k = "op_neg" -> MNeg(Denote(t.a[1]))
       [] t.k \in {"op_smul", "op_rsmul"} -> MScale(t.p.c, Denote(t.a[1]))      \* c * A, A * c
@@ -98,6 +101,8 @@ ShapeOf(t) ==
       [] t.k \in {"BlockDiag", "op_block_diag"} -> <<SumR(Len(t.a)), SumC(Len(t.a))>>
       [] t.k \in {"Transpose", "op_T", "Adjoint", "op_H"} -> <<S(1)[2], S(1)[1]>>
       [] t.k \in {"Sliced", "op_getitem"} -> <<Len(t.p.rows), Len(t.p.cols)>>
+      [] t.k \in {"GramT", "GramH"} -> <<S(1)[2], S(1)[2]>>
+      [] t.k = "GramHr" -> <<S(1)[1], S(1)[1]>>
       [] t.k = "Concatenated" ->
             IF t.p.axis = 0 THEN <<SumR(Len(t.a)), S(1)[2]>> ELSE <<S(1)[1], SumC(Len(t.a))>>
       [] OTHER -> S(1)
